@@ -3,6 +3,7 @@ Invariants of the FleetStore model (Model/FleetStore.lean), for every operation 
 the no-aliasing discipline (an object is loaded only while it is not inside).
 -/
 import FsVerif.Proofs.BufInv
+import FsVerif.Proofs.BufPrio
 import FsVerif.Model.FleetStore
 namespace FsVerif
 namespace FleetStore
@@ -124,6 +125,12 @@ theorem reservePut_frame (b : BufStore) (p : Nat) : BFrame b (b.reservePut p).1 
 
 theorem reserveGet_frame (b : BufStore) (p : Nat) : BFrame b (b.reserveGet p).1 := by
   simp [BFrame, BufStore.reserveGet]
+
+theorem reservePutP_frame (b : BufStore) (p : Nat) (pr : Int) : BFrame b (b.reservePutP p pr).1 := by
+  simp [BFrame, BufStore.reservePutP]
+
+theorem reserveGetP_frame (b : BufStore) (p : Nat) (pr : Int) : BFrame b (b.reserveGetP p pr).1 := by
+  simp [BFrame, BufStore.reserveGetP]
 
 theorem get_frame (b : BufStore) (p tid : Nat) : BFrame b (b.get p tid).1 := by
   unfold BufStore.get BFrame
@@ -673,6 +680,8 @@ theorem KT.step {s : FleetStore} (h : KT s) (op : Op) (hok : OpOK s op) : KT (s.
   cases op with
   | reservePut p => exact h'.lift _ (BufStore.reservePut_core p h'.core) (reservePut_frame _ p)
   | reserveGet p => exact h'.lift _ (BufStore.reserveGet_core p h'.core) (reserveGet_frame _ p)
+  | reservePutP p pr => exact h'.lift _ (BufStore.reservePutP_core p pr h'.core) (reservePutP_frame _ p pr)
+  | reserveGetP p pr => exact h'.lift _ (BufStore.reserveGetP_core p pr h'.core) (reserveGetP_frame _ p pr)
   | put p t x => exact h'.put p t x hok
   | get p t => exact h'.lift _ (BufStore.get_core p t h'.core).1 (get_frame _ p t)
   | cancelPut t => exact h'.lift _ (BufStore.cancelPut_core t h'.core) (cancelPut_frame _ t)
